@@ -40,7 +40,7 @@ NUMS = ['0', '1', '12', '1e', '0x1p', '1.', '.5', '1e+', '0x1P-', '0xe', '3u', '
 LITS = ['"s"', '"a b"', 'u8"z"', 'L"w"', 'u"q"', 'U"r"', "'c'", "L'd'", "u'e'", "U'f'", "'\\''", '"\\""', '"/*"', '"//"', '""']
 PUNCTS = ['<<=', '>>=', '...', '==', '!=', '<=', '>=', '->', '+=', '-=', '*=', '/=', '++', '--', '%=', '&=', '|=', '^=', '&&', '||',
           '<<', '>>', '!', '%', '&', '*', '+', '-', '.', '/', ':', ';', '<', '=', '>', '?', '[', ']', '^', '{', '|', '}', '~', '@', '`']
-WEIGHTED = IDENTS + NUMS + LITS + PUNCTS + ['-', '+', '.', '/', '*', '<', '>', '=', '&', '|', ':', '%', '-', '+', '.']
+WEIGHTED = IDENTS + NUMS + LITS + PUNCTS + ['\\', '\\', '\xef\xbb\xbfw'] + ['-', '+', '.', '/', '*', '<', '>', '=', '&', '|', ':', '%', '-', '+', '.']
 PASTE = [('a', 'b1'), ('x', '1'), ('1', 'e'), ('1e', '+'), ('0x1p', '-'), ('-', '>'), ('<', '<'), ('<<', '='), ('+', '+'), ('-', '-'),
          ('.', '5'), ('L', "'c'"), ('u8', '"s"'), ('&', '&'), ('1', '.'), ('>', '>='), ('u', '"q"'), ('|', '='), ('.', '1e')]
 SEPS = [' ', ' ', ' ', '\t', '  ', ' /* c */ ', '/**/']
@@ -69,9 +69,10 @@ def gen_program(rng, idx):
              '#define E', '#define N -1', '#define P +', '#define Q(x) x', '#define D(x) x x', '#define G(x) x-x',
              '#define CAT(a,b) a##b', '#define S(x) #x', '#define H #', '#define W(x,y) y x']
     body = [rng.choice(WEIGHTED) for _ in range(rng.randint(0, 3))]
-    lines.append('#define R0 ' + join_parts(rng, body))
+    nobs = lambda l: l + ' ' if l.endswith('\\') else l                 # a backslash at the end of a line would splice: keep it a token
+    lines.append(nobs('#define R0 ' + join_parts(rng, body)))
     body = [('x' if rng.random() < 0.5 else rng.choice(WEIGHTED)) for _ in range(rng.randint(1, 4))]
-    lines.append('#define R1(x) ' + join_parts(rng, body, macro=lambda s: s == 'x'))
+    lines.append(nobs('#define R1(x) ' + join_parts(rng, body, macro=lambda s: s == 'x')))
     pasted = []
     def arg():
         return join_parts(rng, [rng.choice(WEIGHTED) for _ in range(rng.randint(0, 2))])
@@ -93,19 +94,19 @@ def gen_program(rng, idx):
     for k in range(nuse):
         if k == inc_at:
             header = '/* header of case %d */\n' % idx + '\n'.join(
-                join_parts(rng, [part() for _ in range(rng.randint(1, 5))], macro=is_macro) for _ in range(rng.randint(1, 2))) + '\n'
+                nobs(join_parts(rng, [part() for _ in range(rng.randint(1, 5))], macro=is_macro)) for _ in range(rng.randint(1, 2))) + '\n'
             lines.append('#include "tie_h%d.h"' % idx); feats.add('include')
         ps = [part() for _ in range(rng.randint(1, 9))]
         if k == 0 and lead < 0.04: ps[0] = 'H'; feats.add('leading-hash-attempt')
         elif k == 0 and ps[0] == 'H': ps[0] = 'E'
         if k > 0 and rng.random() < 0.15: ps[0] = rng.choice(['H', 'E', 'Q(H)', 'E H'])            # a `#` / nothing at the start of a line
-        line = join_parts(rng, ps, macro=is_macro)
+        line = nobs(join_parts(rng, ps, macro=is_macro))
         if rng.random() < 0.2: line = rng.choice([' ', '\t', '  ']) + line
         if rng.random() < 0.15: line += rng.choice([' // tail', '   ', ' /* t */'])
         lines.append(line)
         if rng.random() < 0.1: lines.append(rng.choice(['', 'E', '  E E', '/* only a comment */']))
     if inc_at == nuse:
-        header = '/* header of case %d */\n' % idx + join_parts(rng, [part() for _ in range(rng.randint(1, 5))], macro=is_macro) + '\n'
+        header = '/* header of case %d */\n' % idx + nobs(join_parts(rng, [part() for _ in range(rng.randint(1, 5))], macro=is_macro)) + '\n'
         lines.append('#include "tie_h%d.h"' % idx); feats.add('include')
     text = '\n'.join(lines) + '\n'
     # a pasted spelling must not occur in the sources (its dumped line number is that of an operand)
@@ -129,6 +130,18 @@ BOUNDARY = [
     ('line-starts', ['E a', '  E  a', 'E', 'N', 'Q(', 'a', ')b', 'E E', '/* c */ x', 'y // t']),
     ('only-empty', ['E', 'E E']),
     ('comment-seps', ['a/**/b', 'a/* */+/**/+', '-/**/-', 'x// y', '1/**/e+5']),
+    # f21a1fb: a lone backslash token right before a new-line (backslash, blank, new-line in the source), glued to its
+    # predecessor, twice in a row, from a macro, before a `#` kept on the line, and as the very last token of the output
+    ('backslash-before-newline', ['a \\ ', 'b', 'x\\ ', 'y \\\\ ', 'z', 'Q(\\)', 'w', '\\ ', 'H u \\ ', 'E \\ ', 'v \\ w']),
+    ('backslash-at-the-end', ['a', 'b \\ ']),
+    ('backslash-at-the-end-glued', ['a', 'b\\ ']),
+    ('backslash-only', ['\\ ']),
+    ('backslash-double-splice', ['x\\\\', '', 'y']),                     # `\` `\`+new-line, empty line: phase 2 leaves `x\` + new-line
+    # 87479b9: an identifier beginning with U+FEFF as the very first token of the output (the source line 1 is a comment)
+    ('feff-first', ['\xef\xbb\xbfx = 1;', '\xef\xbb\xbfx']),
+    ('feff-first-from-macro', ['#define F \xef\xbb\xbfq', 'F+1', 'F']),
+    ('feff-first-with-space', [' \xef\xbb\xbfz', 'E \xef\xbb\xbfz']),
+    ('feff-not-first', ['a', '\xef\xbb\xbfx', 'Q(\xef\xbb\xbf)b']),
 ]
 
 def boundary_program(idx, name, uses):
@@ -209,7 +222,9 @@ Definition model_case (id : N) (ts : list etok) : list N :=
 (* spec: the bytes the real compiler wrote, read by the tokenizer model, against the dumped tokens *)
 Definition spec_case (id : N) (ts : list etok) (real : list N) : list N :=
   id :: 1100 :: b2n (same_tokens_b (tokenize punct_table) real (given ts)) ::
-  b2n (faithful_b (tokenize punct_table) real (given ts)) :: 1101 :: enc_lex (tokenize punct_table real).
+  b2n (faithful_b (tokenize punct_table) real (given ts)) ::
+  b2n (match tokenize punct_table real with LexOk l => no_directive l | LexErr => false end) ::
+  b2n (survives_phases_1_2 real) :: 1101 :: enc_lex (tokenize punct_table real).
 '''
 
 def decode_lex(v):
@@ -250,27 +265,29 @@ def run(src_dir, seed=1, n=150, verif_dir=None):
         progs = progs[:max(n, 1)]
         cases = []
         for i, (text, header, feats) in enumerate(progs):
-            f = os.path.join(wd, 'c%d.c' % i); open(f, 'w').write(text)
+            f = os.path.join(wd, 'c%d.c' % i); open(f, 'w', encoding='latin-1').write(text)
             hf = None
             if header is not None:
-                hf = os.path.join(wd, 'tie_h%d.h' % i); open(hf, 'w').write(header)
-            rc, real, err = sh([chibi, '-E', f])
-            if rc != 0:
-                count('skipped-preprocessing-error'); continue
+                hf = os.path.join(wd, 'tie_h%d.h' % i); open(hf, 'w', encoding='latin-1').write(header)
             rc2, d, err2 = sh([chibi, '-E', '-verif-dump-tokens', f])
+            if rc2 != 0:
+                count('skipped-preprocessing-error'); continue                       # the generator made an invalid invocation: not this property
+            rc, real, err = sh([chibi, '-E', f])
             rc3, r, err3 = sh([chibi, '-E', '-verif-dump-raw-tokens', f])
-            if rc2 != 0 or rc3 != 0:
-                res['impl_vs_model'].append({'case': text, 'impl': '-E succeeds', 'model': 'dump fails: ' + (err2 + err3).decode(errors='replace')[-200:]}); continue
+            if rc != 0 or rc3 != 0:
+                res['evaluations'] += 1
+                res['impl_vs_model'].append({'case': text, 'impl': '-E fails although preprocessing succeeds: ' + (err + err3).decode(errors='replace')[-200:],
+                                             'model': 'print_tokens is total'}); continue
             pp = parse_dump(d)
             if any(t.kind not in KIND for t in pp):
                 res['impl_vs_model'].append({'case': text, 'impl': 'token kinds %s' % sorted(set(t.kind for t in pp)), 'model': 'only preprocessing-token kinds reach the printer'}); continue
             rawfiles = {}
             raw1 = parse_dump(r)
-            if locate(text.encode(), raw1): rawfiles[1] = raw1
+            if locate(text.encode('latin-1'), raw1): rawfiles[1] = raw1
             if hf:
                 rc4, rh, _ = sh([chibi, '-E', '-verif-dump-raw-tokens', '-xc', hf])
                 rawh = parse_dump(rh) if rc4 == 0 else None
-                if rawh is not None and locate(header.encode(), rawh): rawfiles[2] = rawh
+                if rawh is not None and locate(header.encode('latin-1'), rawh): rawfiles[2] = rawh
             adj = adjacency(pp, rawfiles)
             amb = [k for k in range(1, len(pp)) if adj[k] is None and matters(pp[k], False)]
             for k in range(len(pp)):
@@ -307,7 +324,7 @@ def run(src_dir, seed=1, n=150, verif_dir=None):
                 e = vals.index(1001)
                 model[vals[0]] = (bytes(vals[2:e]), vals[e + 1], vals[e + 2])
             elif len(vals) >= 2 and vals[1] == 1100:
-                spec[vals[0]] = (vals[2], vals[3], decode_lex(vals[5:]))
+                spec[vals[0]] = (vals[2], vals[3], vals[4], vals[5], decode_lex(vals[7:]))
         # ---- decide
         seen = set()
         for c in cases:
@@ -315,19 +332,20 @@ def run(src_dir, seed=1, n=150, verif_dir=None):
             pp, real = c['pp'], c['real']
             if c['id'] not in spec:
                 res['error'] = 'no result of coqc for case %d' % c['id']; return res
-            same, faithful, relexed = spec[c['id']]
+            same, faithful, nodir, survives, relexed = spec[c['id']]
             dumped = [(KCODE[KIND[t.kind]], t.text) for t in pp]
             variants = [model.get(c['id'] * 16 + vi) for vi in range(len(c['variant_adj']))] if len(c['amb']) <= MAX_AMBIG else []
             lead = bool(pp) and pp[0].text == b'#'
             # the property itself
-            if not same or (not faithful and not lead):
+            if not same or not survives or (not nodir and not lead):
                 res['impl_vs_spec'].append({'case': c['text'] + ('\n--- header ---\n' + c['header'] if c['header'] else ''),
                                             'impl': show(real),
-                                            'spec': ('same tokens, but a `#` that is not a directive starts a line of the -E text (would be read as a directive)' if same else
+                                            'spec': ('same tokens, but phases 1-2 of a reader alter the -E text (leading byte order mark, backslash before a new-line, or carriage return)' if same and not survives else
+                                                     'same tokens, but a `#` that is not a directive starts a line of the -E text (would be read as a directive)' if same else
                                                      'the -E text must read back as %s (kinds %s); the tokenizer model reads %s' % (
                                                 [show(t) for k, t in dumped], [k for k, t in dumped],
                                                 'an error' if relexed is None else [(k, show(t)) for k, t in relexed]))})
-            elif not faithful and lead:
+            elif not nodir and lead:
                 res['known_findings'].append({'id': 'C19-leading-hash', 'case': c['text'], 'impl': show(real)})
                 count('known-leading-hash')
             # the model
@@ -358,6 +376,9 @@ def run(src_dir, seed=1, n=150, verif_dir=None):
                     kinds = KIND[pp[k - 1].kind][1:] + '+' + KIND[t.kind][1:]
                     count('nonadjacent ' + kinds)
                 count('sep ' + cl); cls.add(cl)
+                if cl == 'new-line' and pp[k - 1].text == b'\\': count('backslash before new-line')
+                if first and not t.space and t.text.startswith(b'\xef\xbb\xbf'): count('first token begins with U+FEFF, no has_space')
+            if pp and pp[-1].text == b'\\': count('backslash as last token')
             for ft in c['feats']:
                 if ft.startswith('boundary-') or ft in ('include', 'leading-hash-attempt'): count(ft if not ft.startswith('boundary-') else 'boundary')
             if (cls & {'space-from-non-adjacency', 'glued', 'hash-at-bol-kept-on-line'}) and real not in seen:
